@@ -266,6 +266,10 @@ func checkC14(r *Result) {
 				}
 			}
 		}
+		if n == 1 && one && incd {
+			// the two writes merged into one after the branches: that one write stands for both reviewed ones
+			r.ok("WITHDRAW-ID", "(x/bridge/keeper.Keeper).IncrementWithdrawalId # counter written after being read", P.Pos(inc.Pos()), "single write of either value (first id / previous + 1)")
+		}
 		// two writes (one per branch) or one write after the branches merged: either way both values are stored
 		r.check((n == 2 || n == 1) && one && incd, "WITHDRAW-ID", "(x/bridge/keeper.Keeper).IncrementWithdrawalId # first id 1, then previous + 1", P.Pos(inc.Pos()), fmt.Sprintf("%d writes; starts at 1: %v; increments by 1: %v", n, one, incd))
 		var ws []string
